@@ -22,6 +22,12 @@ def _tangle_bw(seed, n, kind="standard", variant="bytewise"):
                   corpus.gen_bw_tangle(rng, i), note="seeded-tangle(%d)" % seed) for i in range(n)]
 
 
+def _infix_bw(seed, n, kind="standard"):
+    rng = random.Random(300007 * seed + 29 + len(kind))
+    return [Entry("ix%d_%s" % (i, kind[:2]), "bytewise", kind, corpus.gen_bw_infix(rng, i), note="seeded-infix(%d)" % seed)
+            for i in range(n)]
+
+
 def _edge_bw(seed, n, kind="standard"):
     rng = random.Random(900007 * seed + 3)
     return [Entry("ed%d_%s" % (i, kind[:2]), "bytewise", kind, corpus.gen_bw_edge(rng, i), note="seeded-edge(%d)" % seed)
@@ -83,7 +89,7 @@ def plan_for(prop, tier, seed):
             P.add(e, *fams)
         for e in _edge_bw(seed, 24 if q else 96):
             P.add(e, "T1")
-        for e in _tangle_bw(seed, 8 if q else 48):
+        for e in _tangle_bw(seed, 8 if q else 48) + _infix_bw(seed, 6 if q else 32):
             P.add(e, "T2", "T34")
         if q:
             # evicting multi-block builds, edges only (T1 on 1536 slots: ~20 s)
@@ -126,6 +132,8 @@ def plan_for(prop, tier, seed):
         for e in _tangle_bw(seed, 16 if q else 64, kind):
             P.add(e, "T2", "T34")
         for e in _tangle_bw(seed + 1, 4 if q else 16, kind, "charwise"):
+            P.add(e, "T2", "T34")
+        for e in _infix_bw(seed, 12 if q else 48, kind):
             P.add(e, "T2", "T34")
         for n in (("w123", "a4", "thai") if q else ("w123", "a4", "a2", "a5", "thai", "tokyo", "cjk", "astral")):
             P.add(cw(n, kind), *fams)
